@@ -264,6 +264,19 @@ func (c *Ctx) lenFactsAtDepth(eng *ranges.Engine, fn *ssa.Function, s ssa.Value,
 				}
 				if oc, ridx, wantOnTrue, ok := ranges.OutcomeOfCond(ifCond(d)); ok && oc == call {
 					want := wantOnTrue == (d.Succs[0] == cb)
+					// the helper hands back a tail of its argument (payload, ok := body(data, magic) with
+					// `return data[7:], true`): every length test of the argument made before this point
+					// carries over, minus the offset (if len(com.Data) <= 12 { continue }; payload[5:])
+					if arg, k, ok := resultTailOfArg(call, ex.Index, ridx, want); ok && depth < 2 {
+						pf := c.lenFactsAtDepth(eng, fn, arg, b, depth+1)
+						if pf.min-k > f.min {
+							f.min = pf.min - k
+							f.anyCheck = true
+						}
+						if pf.unparsed {
+							f.unparsed = true
+						}
+					}
 					if m, ok, isExact := c.resultLenOnOutcome(eng, fn, call, ex.Index, ridx, want, depth); ok && m > 0 {
 						if isExact {
 							f.exact = m
@@ -280,8 +293,22 @@ func (c *Ctx) lenFactsAtDepth(eng *ranges.Engine, fn *ssa.Function, s ssa.Value,
 		}
 	}
 	if m, known := c.lenLowerOfValue(eng, fn, s, b, 0); known {
-		f.min = m
+		if m > f.min {
+			f.min = m
+		}
 		f.anyCheck = f.anyCheck || m > 0
+	}
+	// a tail of another slice (rest := data[k:]): the tests of the parent's length carry over
+	if sl, ok := s.(*ssa.Slice); ok && sl.High == nil && sl.Max == nil && depth < 2 {
+		if _, isSl := sl.X.Type().Underlying().(*types.Slice); isSl {
+			if k, ok := constIntOr(sl.Low, 0); ok && k >= 0 {
+				pf := c.lenFactsAtDepth(eng, fn, sl.X, b, depth+1)
+				if pf.min-k > f.min {
+					f.min = pf.min - k
+					f.anyCheck = true
+				}
+			}
+		}
 	}
 	for cb := b; cb != nil; cb = cb.Idom() {
 		d := cb.Idom()
@@ -1218,6 +1245,12 @@ func (c *Ctx) unorderedDifference(eng *ranges.Engine, fn *ssa.Function, n ssa.Va
 		if c.storedFrom(kx, ky) || c.storedFrom(ky, kx) {
 			continue
 		}
+		// … and the verdict is given only for quantities kept exactly as they were read (a header
+		// field stored without arithmetic): anything computed (x1 = x0 + tileWidth, clipped or
+		// translated rectangles) has relations the key comparison cannot see
+		if !c.storedRaw(kx) || !c.storedRaw(ky) {
+			continue
+		}
 		names := func(m map[string]bool) string {
 			var out []string
 			for k := range m {
@@ -1256,4 +1289,117 @@ func (c *Ctx) storedFrom(ka, kb map[string]bool) bool {
 		}
 	}
 	return false
+}
+
+// storedRaw: every store into the fields named by keys (len: keys aside) stores a value exactly as
+// it was read from the stream: an encoding/binary UintN call, a byte of a slice, or a local cell
+// that a reader filled through its address.
+func (c *Ctx) storedRaw(keys map[string]bool) bool {
+	n := 0
+	for _, fn := range c.scopeFuncs() {
+		for _, b := range fn.Blocks {
+			for _, ins := range b.Instrs {
+				st, ok := ins.(*ssa.Store)
+				if !ok || !keys[storageKeyOfAddr(st.Addr)] {
+					continue
+				}
+				n++
+				v := st.Val
+				for {
+					if cv, isCv := v.(*ssa.Convert); isCv {
+						v = cv.X
+						continue
+					}
+					break
+				}
+				switch x := v.(type) {
+				case *ssa.Call:
+					sc := x.Call.StaticCallee()
+					if sc == nil || sc.Pkg == nil || sc.Pkg.Pkg.Path() != "encoding/binary" || !strings.HasPrefix(sc.Name(), "Uint") {
+						return false
+					}
+				case *ssa.UnOp:
+					if x.Op != token.MUL {
+						return false
+					}
+					switch a := x.X.(type) {
+					case *ssa.IndexAddr:
+						if !isByteSlice(a.X.Type()) {
+							return false
+						}
+					case *ssa.Alloc:
+						escaped := false
+						if a.Referrers() != nil {
+							for _, r := range *a.Referrers() {
+								switch r.(type) {
+								case ssa.CallInstruction, *ssa.MakeInterface:
+									escaped = true
+								}
+							}
+						}
+						if !escaped {
+							return false
+						}
+					default:
+						return false
+					}
+				default:
+					return false
+				}
+			}
+		}
+	}
+	hasField := false
+	for k := range keys {
+		if !strings.HasPrefix(k, "len:") {
+			hasField = true
+		}
+	}
+	return n > 0 || !hasField
+}
+
+// resultTailOfArg: on the outcome `want` of result outIdx, result resIdx of call is arg[k:] for one
+// argument of the call and one constant k, on every matching return of the callee.
+func resultTailOfArg(call *ssa.Call, resIdx, outIdx int, want bool) (ssa.Value, int64, bool) {
+	sc := call.Call.StaticCallee()
+	if sc == nil || sc.Blocks == nil || !load.InScope(sc) || len(call.Call.Args) != len(sc.Params) {
+		return nil, 0, false
+	}
+	pi, k, n := -1, int64(0), 0
+	for _, rb := range sc.Blocks {
+		if len(rb.Instrs) == 0 {
+			continue
+		}
+		ret, ok := rb.Instrs[len(rb.Instrs)-1].(*ssa.Return)
+		if !ok || resIdx >= len(ret.Results) || outIdx >= len(ret.Results) {
+			continue
+		}
+		ov := ret.Results[outIdx]
+		if kc, ok := ov.(*ssa.Const); ok {
+			if ov.Type().String() == "error" {
+				if kc.IsNil() != want {
+					continue
+				}
+			} else if kc.Value != nil && (kc.Value.String() == "true") != want {
+				continue
+			}
+		} else if ov.Type().String() == "error" && want && definitelyNonNilError(ret, outIdx) {
+			continue
+		}
+		sl, ok := ret.Results[resIdx].(*ssa.Slice)
+		if !ok || sl.High != nil || sl.Max != nil {
+			return nil, 0, false
+		}
+		p := paramIndex(sc, sl.X)
+		lo, okk := constIntOr(sl.Low, 0)
+		if p < 0 || !okk || lo < 0 || (n > 0 && (p != pi || lo != k)) {
+			return nil, 0, false
+		}
+		pi, k = p, lo
+		n++
+	}
+	if n == 0 {
+		return nil, 0, false
+	}
+	return call.Call.Args[pi], k, true
 }
